@@ -211,7 +211,7 @@ impl Scenario for GrammarSim {
                 let fut = async {
                     match case.via {
                         Via::Client | Via::ClientNoPool => {
-                            let cfg = ClientCfg { pool: case.via == Via::Client, idle_timeout_ms: None, max_idle: 32, continue_after_preemption: true, alpn_h2: true, timeout_ms: None };
+                            let cfg = ClientCfg { pool: case.via == Via::Client, idle_timeout_ms: None, max_idle: 32, continue_after_preemption: true, alpn_h2: true, timeout_ms: None, order: (crate::rng::fnv1a(format!("{}{}{}", case.uri, case.method, case.version).as_bytes()) % 24) as u8 };
                             let svc = super::build_client(&net, &cfg, case.tls);
                             svc.oneshot(req).await
                         }
